@@ -47,6 +47,10 @@ def plan(tier, seed):
     for a, b in E.chunks(E.n_graphs(5, 2), 64):
         shards.append(("g", 5, 2, False, a, b))
         shards.append(("semi", 5, 2, False, a, b))
+    # four training samples, three weight levels with zero-weight arcs between distinct samples (three
+    # prototypes and a non-prototype at cost 0 that leaves the queue before one of them)
+    for a, b in E.chunks(E.n_graphs(5, 3), 400):
+        shards.append(("g", 5, 3, True, a, b))
     # classifiers obtained by other routes than fit(): learn() (all RNG answers), and save/load into
     # an object constructed with a different metric
     for pi in range(24):
@@ -80,8 +84,6 @@ def plan(tier, seed):
             for a, b in E.chunks(E.n_sequences(9, 4), 400):
                 shards.append(("feat", "2d", 4, mt, a, b))
     if tier == "thorough":
-        for a, b in E.chunks(E.n_graphs(5, 3), 400):
-            shards.append(("g", 5, 3, True, a, b))
         for a, b in E.chunks(E.n_graphs(6, 2), 200):
             shards.append(("g", 6, 2, False, a, b))
     return shards
@@ -172,6 +174,11 @@ def programs(shard, seed):
                 yield {"model": kindm, "mode": "features", "X": X, "metric": metric,
                        "labels": list(E.rename_classes(lab, seed)), "n_unlabeled": 0,
                        "batches": [qs]}
+                if (si + li) % 4 == 1 and all(float(v).is_integer() for r in X for v in r):
+                    # integer-typed training matrix, real-valued queries (midpoints are fractional)
+                    yield {"model": kindm, "mode": "features", "X": X, "metric": metric,
+                           "labels": list(E.rename_classes(lab, seed)), "n_unlabeled": 0,
+                           "batches": [qs], "labeled_dtype": "int64"}
 
 
 def run_case(prog, res=None, model=None):
